@@ -48,6 +48,22 @@ func (in *instance) argFor(op, tok string, m flat) (any, error) {
 	switch in.kind {
 	case "steps":
 		return nil, nil // the input of the step / signal is fixed (callStep)
+	case "objreq":
+		// root{a REQUIRED, b..e}; the partial arguments leave a out and supply b
+		switch tok {
+		case "data_partial":
+			return map[string]any{"b": int(1)}, nil
+		case "data_full":
+			return map[string]any{"a": int(1), "b": int(1)}, nil
+		case "props_partial":
+			// a map of property schemas, as the compatibility of two objects hands it over
+			return map[string]any{"b": prop(intT(), nil)}, nil
+		case "schema_partial":
+			return schema.NewScopeSchema(schema.NewObjectSchema("root", map[string]*schema.PropertySchema{
+				"b": prop(intT(), nil), "c": prop(intT(), nil)})), nil
+		case "schema_full":
+			return reqScope(), nil
+		}
 	case "anylist":
 		// []any values as a decoder or a careless caller hands them over: items in non-canonical representations
 		var v any
@@ -210,7 +226,8 @@ func (in *instance) argFor(op, tok string, m flat) (any, error) {
 			if op == "unser" {
 				return map[string]any{discField: "a", "n": int(m.N)}, nil
 			}
-			if in.ckind == "oneof_struct" && in.origin != "rebuilt" {
+			// data-mode compatibility is asked about the map form, also for struct-mapped members
+			if in.ckind == "oneof_struct" && in.origin != "rebuilt" && op != "compat" {
 				return MemberA{N: m.N}, nil
 			}
 			return map[string]any{discField: "a", "n": m.N}, nil
@@ -346,15 +363,23 @@ func flatOf(v any) (flat, error) {
 
 // call evaluates one operation once: fresh argument, deep snapshot before and after, abstraction.
 func (in *instance) call(op, tok string, m flat) (o obs) {
-	o.M, o.N = emptyFlat, 0
 	arg, err := in.argFor(op, tok, m)
 	if err != nil {
+		o.M, o.N = emptyFlat, 0
 		o.FlatErr = err.Error()
 		return o
 	}
+	return in.callWith(op, tok, m, arg, false)
+}
+
+// callWith evaluates one operation on a given argument value.  shared: the value is handed to several concurrent
+// calls at once (a caller may do that: arguments are read-only); it is then not rendered per call - reading it
+// while the SDK writes to it would be the harness's part of the SDK's race - but once before and after the trial.
+func (in *instance) callWith(op, tok string, m flat, arg any, shared bool) (o obs) {
+	o.M, o.N = emptyFlat, 0
 	snapshot := func() string {
-		if in.kind == "compat2" {
-			return "" // a shared schema value: its description is compared once per trial, not per call
+		if in.kind == "compat2" || shared {
+			return "" // a shared value: compared once per trial, not per call
 		}
 		return canon(arg)
 	}
@@ -446,7 +471,7 @@ func (in *instance) call(op, tok string, m flat) (o obs) {
 			}
 			cur = mp["next"]
 		}
-	case "compat2", "anylist":
+	case "compat2", "anylist", "objreq":
 		// verdict only
 	case "disabled":
 		o.N = 1
